@@ -28,7 +28,7 @@ CASES = {'quick': 110, 'thorough': 4000}
 
 
 def strategy(tier):
-    w = {'mixed': 4, 'growshrink': 2, 'deep': 2, 'links': 5, 'boot': 2, 'exactfill': 1, 'cegap': 2, 'samename': 4, 'bootlinks': 2, 'reloctwins': 1, 'readd': 2}
+    w = {'mixed': 4, 'growshrink': 2, 'deep': 2, 'links': 5, 'boot': 2, 'exactfill': 1, 'cegap': 2, 'samename': 4, 'bootlinks': 2, 'reloctwins': 1, 'readd': 2, 'symcomps': 1}
     return st.tuples(gen.with_reopens(gen.any_profile(reopen_ok=True, weights=w)), st.sampled_from([1, 512, 2048, 8192, 70000]))
 
 
